@@ -7,6 +7,6 @@ mkdir -p /tmp/seedwt/$p
 git -C /repo worktree remove --force $d 2>/dev/null || true
 git -C /repo worktree add -q --detach $d HEAD
 cd $d
-git rm -q $(git ls-files | grep 'zz_contracts_verif.go$')
+git rm -q $(git ls-files | grep -E 'zz_contracts[a-z0-9_]*_verif.go$')
 git -c user.name=scratch -c user.email=s@x commit -qm "scratch base (no contract files)"
 echo $d
